@@ -87,9 +87,13 @@ def Schema.types : Schema → List TypeDef
 def Schema.typeMapGet (s : Schema) (n : Name) : Option TypeDef :=
   s.types.reverse.find? (·.name == n)
 
-/-- distinct keys of `type_map()` with the value the map holds for them -/
-def Schema.typeMapEntries (s : Schema) : List TypeDef :=
-  (s.types.map (·.name)).eraseDups.filterMap s.typeMapGet
+/-- the values `type_map()` holds, one per distinct key: a definition survives unless a later
+    definition has the same name (`HashMap::insert` overwrites) -/
+def lastWins : List TypeDef → List TypeDef
+  | [] => []
+  | t :: rest => if rest.any (·.name == t.name) then lastWins rest else t :: lastWins rest
+
+def Schema.typeMapEntries (s : Schema) : List TypeDef := lastWins s.types
 
 def defaultSchemaDef : SchemaDef :=
   { query := some nQuery, mutation := some nMutation, subscription := some nSubscription }
@@ -125,6 +129,13 @@ def Schema.isNamedSubtype (s : Schema) (sub sup : Name) : Bool :=
     | some subT, some supT => supT.isAbstract && isPossibleType supT subT
     | _, _ => false
 
+/-- last branch of `is_subtype`: both sides named -/
+def Schema.namedSubtypeCheck (s : Schema) (subN supN : Name) : Bool :=
+  match s.typeByName subN, s.typeByName supN with
+  | some subT, some supT =>
+    supT.isAbstract && (subT.isInterface || subT.isObject) && isPossibleType supT subT
+  | _, _ => false
+
 /-- `is_subtype`, the six-branch recursion verbatim.  Termination: every recursive call
     strips a wrapper from the sub type, so the recursion is structural in it. -/
 def Schema.isSubtype (s : Schema) : Ty → Ty → Bool
@@ -137,11 +148,7 @@ def Schema.isSubtype (s : Schema) : Ty → Ty → Bool
       | .list sup', .list sub' => s.isSubtype sub' sup'
       | .list _, _ => false
       | _, .list _ => false
-      | .named supN, .named subN =>
-        match s.typeByName subN, s.typeByName supN with
-        | some subT, some supT =>
-          supT.isAbstract && (subT.isInterface || subT.isObject) && isPossibleType supT subT
-        | _, _ => false
+      | .named supN, .named subN => s.namedSubtypeCheck subN supN
 termination_by structural sub => sub
 
 /-! ### Values -/
